@@ -26,7 +26,7 @@ EXPLANATION = (
     "missing in place when dropna=False)."
 )
 NOT_DECIDED = "actual label frequencies / label counts after transform on data"
-FLOORS = {"R-viability-formula": 1, "R-enum-bounds": 11, "R-default-minfreqmod": 2, "R-printer-agreement": 7, "R-nan-restore": 2, "R-aggregate-fill": 2, "R-dropna-stage": 3, "R-index-kept": 1}
+FLOORS = {"R-viability-formula": 1, "R-enum-bounds": 11, "R-default-minfreqmod": 2, "R-printer-agreement": 7, "R-nan-restore": 2, "R-aggregate-fill": 2, "R-dropna-stage": 3, "R-index-kept": 1, "R-single-table": 2}
 
 
 def rule_default(ctx):
@@ -98,6 +98,9 @@ def check(ctx):
     rule_default(ctx)
     rule_printer(ctx)
     c04.rule_nan_restore(ctx)
+    from . import c16
+
+    c16.rule_nan_flag_source(ctx)
     carver.check_aggregate_fill(ctx, "R-aggregate-fill")
     rule_dropna_stage(ctx)
     carver.check_stage_results(ctx, "R-dropna-stage")
